@@ -143,4 +143,12 @@ def load (bytes : List Nat) : Option (Option Obj) :=
   | some (some x) => some (some { header := x.header, comment := x.comment,
                                   tracks := x.tracks.map (fun t => { trk := t, headPos := 0, bufOffset := 0 }) })
 
+/-- `Imd::from_bytes` of a foreign file (`valid` = the comment bytes are UTF-8) -/
+def loadV (valid : Bool) (bytes : List Nat) : Option (Option Obj) :=
+  match fromBytesV valid bytes with
+  | none => none
+  | some none => some none
+  | some (some x) => some (some { header := x.header, comment := x.comment,
+                                  tracks := x.tracks.map (fun t => { trk := t, headPos := 0, bufOffset := 0 }) })
+
 end A2Verif.Model.C08Imd
